@@ -223,9 +223,21 @@ pub fn find_real(sc: &FindScenario, ctx: &mut Ctx, bins: &Path, sub: &str, cmd_t
     if let Some(list) = sc.starts_file_content() {
         let _ = std::fs::write(root.join(crate::find::STARTS_FILE), list);
     }
+    // now and then the command is a bare name that only the empty component of PATH (the
+    // current directory) leads to: -exec runs it from find's own directory
+    let full = sc.full_argv();
+    let leads_out = sc.tree.nodes.iter().any(|n| matches!(n, tree::Node::Symlink { target, .. } if target.contains("..")));
+    let bare_cmd = (full.len() + sc.tree.nodes.len()) % 4 == 1 && full.iter().any(|a| a == cmd_token) && !full.iter().any(|a| a == "-execdir") && !leads_out;
+    if bare_cmd {
+        let _ = std::os::unix::fs::symlink(&ctx.simchild, root.join(crate::xargs::PATH_CMD));
+    }
     let mut argv: Vec<String> = vec![];
-    for a in &sc.full_argv() {
-        if a == cmd_token || *a == format!("{cmd_token}2") {
+    for a in &full {
+        if bare_cmd && (a == cmd_token || *a == format!("{cmd_token}2")) {
+            argv.push(crate::xargs::PATH_CMD.into());
+            argv.push(lp.to_string_lossy().into_owned());
+            argv.push(sp.to_string_lossy().into_owned());
+        } else if a == cmd_token || *a == format!("{cmd_token}2") {
             argv.push(ctx.simchild.to_string_lossy().into_owned());
             argv.push(lp.to_string_lossy().into_owned());
             argv.push(sp.to_string_lossy().into_owned());
@@ -252,6 +264,9 @@ pub fn find_real(sc: &FindScenario, ctx: &mut Ctx, bins: &Path, sub: &str, cmd_t
     base_env(&mut c, ctx);
     for (k, v) in &sc.ambient.env {
         c.env(k, v);
+    }
+    if bare_cmd {
+        c.env("PATH", "/usr/bin::/bin");
     }
     let mut child = c.spawn().map_err(|e| format!("cannot start {}: {e}", bins.join("find").display()))?;
     let writer = list_on_stdin.map(|list| {
